@@ -415,9 +415,33 @@ func main() {
 	worker := flag.Bool("worker", false, "internal: worker process")
 	count := flag.Bool("count", false, "print the size of the family per tier and exit")
 	only := flag.String("only", "", "developer: restrict bulk jobs to paths containing this")
+	emitOp := flag.String("emit", "", "write the input bytes of a `d <path> <mut> <format> <f|n>` op to -emit-to and exit")
+	emitTo := flag.String("emit-to", "", "output file of -emit")
 	cfg := hlib.ParseFlags()
 	if *worker {
 		workerMain()
+		return
+	}
+	if *emitOp != "" {
+		c, err := parseCase(*emitOp)
+		if err != nil || c.kind == "core" {
+			fmt.Fprintln(os.Stderr, "bad op")
+			os.Exit(2)
+		}
+		base, err := readBase(c.path)
+		if err != nil {
+			fmt.Fprintln(os.Stderr, err)
+			os.Exit(2)
+		}
+		b, err := applyMut(base, c.mut)
+		if err != nil {
+			fmt.Fprintln(os.Stderr, err)
+			os.Exit(2)
+		}
+		if err := os.WriteFile(*emitTo, b, 0o644); err != nil {
+			fmt.Fprintln(os.Stderr, err)
+			os.Exit(2)
+		}
 		return
 	}
 	o := hlib.NewOut(cfg.Out)
